@@ -77,6 +77,18 @@ def run(case, rec):
             if cat == "effect" and bucket.endswith(":data_id"):
                 rec.fail("data_id-rule:" + out.plan.route.split(":")[0], {"op": op, "detail": detail})
                 return
+        # a node that was given an explicit node_id (int, or its documented str form) is found under the int
+        if out.plan.status == "valid" and out.raised is None:
+            for m in eng.model.preorder():
+                if m.node_id is not None:
+                    try:
+                        r = eng.real(m)
+                        f = eng.tree.find_first(node_id=int(m.node_id))
+                    except Exception:  # noqa: BLE001  (model and tree out of step: the effect comparison's subject)
+                        break
+                    if f is not r:
+                        rec.fail(f"explicit-node_id-not-found-as-int:after:{out.plan.route.split(':')[0]}", {"op": op, "node_id": m.node_id, "found": repr(f)})
+                        return
         remember()
         bad = index_exact(eng.tree, w, extra_ids=sorted(ids_ever, key=repr), extra_data=list(fl.keep), calc=calc)
         if bad:
